@@ -627,3 +627,28 @@ pub mod validate {
         crate::validate::verif_topic_filter_properties(filter)
     }
 }
+
+/// Read access to option structs (what a builder would hand to the client), in neutral form
+pub mod options {
+    use super::*;
+    use crate::client::config::{ConnectOptions, MqttClientOptions};
+
+    /// The CONNECT packet these options produce (`connected_previously` feeds the rejoin policy), flattened
+    pub fn connect_fields(options: &ConnectOptions, connected_previously: bool) -> Flat {
+        flatten_packet(&MqttPacket::Connect(options.to_connect_packet(connected_previously))).1
+    }
+
+    /// Every field of the client options as (name, rendering)
+    pub fn client_fields(options: &MqttClientOptions) -> Vec<(&'static str, String)> {
+        vec![
+            ("offline_queue_policy", format!("{:?}", options.offline_queue_policy)),
+            ("connect_timeout", format!("{:?}", options.connect_timeout)),
+            ("ping_timeout", format!("{:?}", options.ping_timeout)),
+            ("outbound_alias_resolver_factory", if options.outbound_alias_resolver_factory.is_some() { "Some".to_string() } else { "None".to_string() }),
+            ("reconnect_options", format!("{:?}", options.reconnect_options)),
+            ("protocol_mode", format!("{:?}", options.protocol_mode)),
+            ("post_reconnect_queue_drain_policy", format!("{:?}", options.post_reconnect_queue_drain_policy)),
+            ("max_interrupted_retries", format!("{:?}", options.max_interrupted_retries)),
+        ]
+    }
+}
